@@ -682,6 +682,7 @@ class Guards:
         """[(cond string with parameters as p0.., )] and call sites [(callee, [arg strings or None], propagating)]"""
         ps = self.params(side, f)
         guards, sites = [], []
+        self._branches = []
         J = self.J
 
         def ok_leaf(n):
@@ -782,6 +783,10 @@ class Guards:
                 if is_exit:
                     for g in cond(n['cond']):
                         guards.append(g)
+                else:
+                    for g in cond(n['cond']):
+                        if re.search(r'\bp\d+\b', g):
+                            self._branches.append(g)
             if k == 'TryStmt':
                 for r in n.get('resources', []) or []:
                     walk_stmt(r, swallow)
@@ -833,6 +838,15 @@ class Guards:
 
         walk_stmt(normalise_returns(f.get('body') or {}, is_error_exit_c if side == 'c' else self._java_exit), False)
         return guards, sites
+
+    def branches(self, side, name):
+        """conditions over the function's own parameters that select a NON-failing branch (e.g. `density <= 0` -> take the catalogue
+        density), in the same canonical form as the guards; local to the function"""
+        f = self.lookup(side, name)
+        if f is None:
+            return []
+        self.local(side, f)
+        return sorted(canon_guard(g) for g in self._branches)
 
     @staticmethod
     def _java_exit(th):
